@@ -10,6 +10,9 @@ McPath == [k \in {"k1", "k2", "k3", "k4", "k5", "k6"} |->
                [] k = "k4" -> <<1, 2, 16>>
                [] k = "k5" -> <<1, 3, 3, 4, 16>>
                [] k = "k6" -> <<7, 2, 3, 4, 16>>]
+VarQuick == {<<"plain", 0>>, <<"plain", 1>>, <<"plain", 2>>, <<"secure", 1>>}
+VarAll == {"plain", "secure"} \X {0, 1, 2, 120}
+VarNeg == {<<"plain", 1>>}
 Keys4 == {"k1", "k2", "k3", "k4"}
 Keys5 == {"k1", "k2", "k3", "k4", "k5"}
 Keys6 == {"k1", "k2", "k3", "k4", "k5", "k6"}
